@@ -98,7 +98,10 @@ def check_su2(repo, chk, parts=("algebra", "euler")):
                 z_ = im_.args[0]
             else:
                 z_ = sp.simplify((re_ + sp.I * im_).rewrite(sp.exp))
-            return angle_hook(tr_, z_)
+            try:
+                return angle_hook(tr_, z_)
+            except Unmodelled:
+                return NotImplemented   # not the phase of a recognisable z: keep the plain two-argument arctangent
         if last_ not in ("minimum", "maximum") or len(args) != 2:
             return NotImplemented
         a_, b_ = [sp.sympify(x) for x in args]
